@@ -252,22 +252,25 @@ def shard(payload):
         from lib.symx.model import canon
         for k in e2:
             try:
-                t2 = tr(canon(e2[k]))
+                c2 = canon(e2[k])
+                t2 = tr(c2)
+                # for two sympy trees the difference is normalised first (expand: identical polynomials
+                # cancel syntactically, Max/ceiling atoms stay opaque) and the solver is asked `diff != 0`
                 if k in e1:
-                    pairs.append((f"{k}: symengine tree == sympy tree", tr(canon(e1[k])), t2, k))
+                    pairs.append((f"{k}: symengine tree == sympy tree", tr(canon(e1[k])), t2, k, tr(sympy.expand(canon(e1[k]) - c2))))
                 if k in e3:
-                    pairs.append((f"{k}: objective formula == sympy tree", tr(canon(e3[k])), t2, k))
+                    pairs.append((f"{k}: objective formula == sympy tree", tr(canon(e3[k])), t2, k, tr(sympy.expand(canon(e3[k]) - c2))))
                 if k in e4 and e4[k]:
-                    pairs.append((f"{k}: lambdified source == sympy tree", srctr.real(srctr.fn(e4[k])), t2, k))
+                    pairs.append((f"{k}: lambdified source == sympy tree", srctr.real(srctr.fn(e4[k])), t2, k, None))
             except Unsupported as e:
                 st.extra["untranslatable"] = st.extra.get("untranslatable", 0) + 1
         sol.add(tr.constraints())
         if z3_check(sol, st, 30000) != "sat":
             raise HarnessError(f"vacuous {label}")
         st.vacuity_ok += 1
-        for d, a, b, k in pairs:
+        for d, a, b, k, dterm in pairs:
             sol.push()
-            r = decide_equal(sol, a, b, st)
+            r = decide_equal(sol, a, b, st, dterm, [(tr.env[s_.name], boxes[s_.name]) for s_ in symbols])
             count_obligation(st, r, label + d + str(a)[:80])
             if r == "sat":
                 m = sol.model()
@@ -330,7 +333,7 @@ def shard(payload):
                     continue
                 sol.push()
                 sol.add(tr.constraints())
-                r = decide_equal(sol, a_t, b_t, st)
+                r = decide_equal(sol, a_t, b_t, st, None, [(tr.env[s_.name], boxes[s_.name]) for s_ in symbols])
                 d = f"{k}: cached lambdify of sibling ({what}) computes the sibling"
                 count_obligation(st, r, label + d)
                 st.extra["cache_sibling_requests"] = st.extra.get("cache_sibling_requests", 0) + 1
@@ -375,14 +378,20 @@ def shard(payload):
     return d
 
 
-def decide_equal(sol, a, b, st):
+def decide_equal(sol, a, b, st, dterm=None, boxes=None):
     """Inside an open push(): asserts a != b and checks.  The formulas (and the printed source of
     the lambdified functions, 15 significant digits) carry binary-float constants such as 1792/3
     rounded in different places: when the exact query is sat, it is re-decided with a relative
-    tolerance of 1e-9, and only a larger gap counts as a disagreement."""
+    tolerance of 1e-9, and only a larger gap counts as a disagreement.  `dterm` is an optional
+    pre-normalised difference (a - b); on `unknown` the query is case-split over the tile-shape
+    symbol with the smallest box (substituted and simplified, lib.common.split_check)."""
+    from lib.common import split_check
     sol.push()
-    sol.add(sol_real(a) != sol_real(b))
-    r = z3_check(sol, st, 60000)
+    sol.add((sol_real(dterm) != 0) if dterm is not None else (sol_real(a) != sol_real(b)))
+    r = z3_check(sol, st, 30000)
+    if r == "unknown" and boxes:
+        v, hi = min(boxes, key=lambda t: t[1])
+        r, _, _ = split_check(sol, [v], 1, hi, st, 30000, max_cases=64)
     sol.pop()
     if r == "unsat":
         return r
@@ -390,7 +399,14 @@ def decide_equal(sol, a, b, st):
     diff = z3.If(ar >= br, ar - br, br - ar)
     mag = z3.If(ar >= 0, ar, -ar)
     sol.add(diff > z3.RealVal(Fraction(1, 10**9)) * (1 + mag))
-    r2 = z3_check(sol, st, 60000)
+    r2 = z3_check(sol, st, 30000)
+    if r2 == "unknown" and boxes:
+        v, hi = min(boxes, key=lambda t: t[1])
+        r2, fix, _ = split_check(sol, [v], 1, hi, st, 30000, max_cases=64)
+        if r2 == "sat":
+            sol.add(fix)
+            if z3_check(sol, st, 60000) != "sat":
+                r2 = "unknown"
     if r2 == "unsat" and r == "sat":
         st.extra["equal_up_to_constant_rounding_1e-9"] = st.extra.get("equal_up_to_constant_rounding_1e-9", 0) + 1
     return r2
